@@ -171,13 +171,19 @@ func (r *nodeRun) answerObserved(c *cluster, n *vnode) int {
 		if r.tier == "thorough" {
 			lim = len(muts)
 		}
+		signing := strings.HasPrefix(string(op.Type), "state_signing_")
 		for i, mu := range muts {
-			if i >= lim {
-				break
+			// (an answer to a signing request whose payload is not the one handed out is always tried: it is the check that
+			// ties what the machine signed to what was proposed)
+			if i >= lim && !(signing && strings.HasPrefix(mu.name, "payload-")) {
+				continue
 			}
 			oc, posted, _ := r.submit(c, n, mu.op, mu.name)
 			if oc == "ok" || posted != "" {
 				r.mon(fmt.Sprintf("C15 posts_only_pending_equal: altered result (%s) of a %s operation was accepted / posted", mu.name, op.Type))
+				if signing && strings.HasPrefix(mu.name, "payload-") {
+					r.mon(fmt.Sprintf("C03 signs_what_was_proposed: the node accepted an answer to a signing request whose payload (%s) is not the one it handed to the machine: the partial signatures it posts were made over a request that differs from the proposal", mu.name))
+				}
 			}
 		}
 		// the genuine result; every other time with the fields of its result messages that the NODE has to set (sender,
